@@ -78,6 +78,9 @@ func (r *Runner) CalmPremise() {
 func (r *Runner) CalmRound() []*Record {
 	w := r.W
 	w.Srv.RunGC()
+	if n := w.Srv.SweepDangling(); n > 0 {
+		r.logf("calm: garbage collector removed %d dependents of absent owners", n)
+	}
 	r.CalmPremise()
 	for _, n := range w.PodNames() {
 		w.Kubelet(n, "settle")
